@@ -614,7 +614,11 @@ func tcpGRO(bufs [][]byte, offset int, pktI int, table *tcpGROTable, isV6 bool) 
 				table.updateAt(item, i)
 				return groResultCoalesced
 			case coalesceItemInvalidCSum:
-				// delete the item with an invalid csum
+				// delete the item with an invalid csum; it is already tracked for
+				// writing and will not be seen by applyTCPCoalesceAccounting, so
+				// its virtio header must be written here
+				hdr := virtioNetHdr{}
+				hdr.encode(bufs[item.bufsIndex][offset-virtioNetHdrLen:])
 				table.deleteAt(item.key, i)
 			case coalescePktInvalidCSum:
 				// no point in inserting an item that we can't coalesce
